@@ -24,7 +24,7 @@ ASSUMPTIONS = [
 ]
 BOUNDS = {
     "quick": {"program_size": 2, "inputs": [0, 1, 2], "contexts": "none, singles, all"},
-    "thorough": {"program_size": 3, "inputs": [0, 1, 2], "contexts": "none, singles, pairs, all"},
+    "thorough": {"program_size": "2 over the full menu, 3 over the core and binding menus", "inputs": [0, 1, 2], "contexts": "none, singles, pairs, all"},
 }
 CHUNK = 10
 
@@ -41,7 +41,7 @@ def program_sets(tier):
     return [("gen", dict()), ("ctl", dict(size=C.SIZE[tier] + 1, only=BIND_CTL, key=("c02ctl", tier))),
             # rich signatures (positional-only, defaults, *rest, keyword-only, **kw, docstring) on one-node programs
             ("sig", dict(size=1 if tier == "quick" else 2, sigs=("rich", "kwonly", "doc", "closure-default"), key=("c02sig", tier))),
-            C.odd_set(tier)]
+            C.odd_set(tier)] + C.core3_sets(tier)
 
 
 def units(tier):
